@@ -36,9 +36,9 @@ ANCHORS = ['debian._deb822_repro.parsing:Deb822ParagraphToStrWrapperMixin.__seti
            'debian._deb822_repro.parsing:Deb822ValueLineElement.add_newline_if_missing']
 MUST_REACH = ANCHORS[:6]
 FLOORS = {'quick': {'nontrivial': 1500, 'monitors': {'M.step': 8000, 'M.reparse': 8000, 'K4': 5000, 'K5': 5000},
-                    'counters': {'op:set': 1500, 'op:add': 1000, 'op:del': 500, 'op:del-to-empty': 60, 'add-after-missing-final-newline': 30, 'big-document': 12}},
+                    'counters': {'op:set': 1500, 'op:add': 1000, 'op:del': 500, 'op:del-to-empty': 60, 'add-after-missing-final-newline': 30, 'big-document': 12, 'key-kind:stale-name-token': 150, 'key-kind:current-name-token': 150, 'key-kind:name-index-tuple': 150}},
           'thorough': {'nontrivial': 100000, 'monitors': {'M.step': 500000, 'M.reparse': 500000, 'K4': 300000, 'K5': 300000},
-                       'counters': {'op:set': 100000, 'op:add': 60000, 'op:del': 35000, 'op:del-to-empty': 4000, 'add-after-missing-final-newline': 2000, 'big-document': 1500}}}
+                       'counters': {'op:set': 100000, 'op:add': 60000, 'op:del': 35000, 'op:del-to-empty': 4000, 'add-after-missing-final-newline': 2000, 'big-document': 1500, 'key-kind:stale-name-token': 15000, 'key-kind:current-name-token': 15000, 'key-kind:name-index-tuple': 15000}}}
 LEVEL_TEXT = ('Runtime monitoring: seeded edit histories on live format-preserving documents; after every operation the dump is '
               'compared byte-for-byte with the layout model outside the edited field, the edited region is checked for '
               'line-wholeness/name/comment hand-over, and a fresh parse plus the live dict view are compared with a list model; '
@@ -176,6 +176,12 @@ def run_case(ctx, case):
              'paras': [[dict(f) for f in p] for p in doc['paras']]}
     text = rtdoc.doc_text(model)
     f = parse_deb822_file(text.splitlines(keepends=True))
+    tokens0 = {}
+    for _pi, _p in enumerate(f):
+        for _k in list(_p.keys()):
+            _el = _p.get_kvpair_element(_k, use_get=True)
+            if _el is not None:
+                tokens0[(_pi, str(_k).lower())] = _el.field_token
     if f.dump() != text:
         ctx.violation('initial-dump-differs', 'text %r' % text)
         return
@@ -201,8 +207,22 @@ def run_case(ctx, case):
             ctx.count('op:add' if is_add else 'op:set')
             how = op[4] if len(op) > 4 else 'item'
             ctx.count('how:' + how)
+            skey = key
+            if not is_add and how == 'item':
+                # the same field addressed by the other documented key kinds: (name, 0), the field's current name token,
+                # a name token taken before earlier replacements (stale, still naming the field)
+                kf = (step + len(key)) % 6
+                if kf == 0:
+                    skey = (key, 0)
+                elif kf == 1:
+                    el = live.get_kvpair_element(key, use_get=True)
+                    skey = el.field_token if el is not None else key
+                elif kf == 2 and (pi, key.lower()) in tokens0:
+                    skey = tokens0[(pi, key.lower())]
+                if skey is not key:
+                    ctx.count('key-kind:%s' % ({0: 'name-index-tuple', 1: 'current-name-token', 2: 'stale-name-token'}[kf]))
             try:
-                do_set(live, key, value, how)
+                do_set(live, skey, value, how)
             except Exception as e:
                 ctx.violation('set-raises/%s' % type(e).__name__, 'step %d %r on %r: %r' % (step, op, before, e))
                 return
